@@ -27,6 +27,23 @@ def mask_param(fn):
     return None
 
 
+def _derives(f, o, local):
+    fl = vf.get_flow(f)
+    p = vf.op_place(o)
+    if p is None:
+        return False
+    seen, stack = set(), [p[0]]
+    while stack:
+        l = stack.pop()
+        if l in seen:
+            continue
+        seen.add(l)
+        if l == local:
+            return True
+        stack.extend(fl.deps[l])
+    return False
+
+
 def run(ctx):
     run = ctx.run
     db = ctx.db
@@ -282,4 +299,43 @@ def run(ctx):
             run.instance(R5, {"fn": "LMDBBackend::close", "obligation": "close() drops the keychain"}, held=held)
             if not held:
                 run.finding(Finding(R5, cl.id, "LMDBBackend::close no longer clears the keychain", site=cl.loc()))
+    R6 = "C14.R6"
+    run.rule(R6, "opening with a mask: the stored keychain is the masked one, the token returned is the mask applied, the checksum is of the unmasked root key", floor=3)
+    sk = ctx.fn(BACKEND + "set_keychain")
+    if sk:
+        mp = c.param(sk, "mask", "bool", 0)
+        gm = cfg.local_guard(sk, mp) if mp is not None else None
+        mm = cfg.find_calls(sk, "grin_keychain::types::Keychain::mask_master_key")
+        ka = [(b, st) for b, st in vf.field_assignments(sk, LMADT, "keychain")]
+        cs = [(b, st) for b, st in vf.field_assignments(sk, LMADT, "master_checksum")]
+        if gm is None or not gm.ok or len(mm) != 1 or not ka or not cs:
+            run.error("C14.R6: set_keychain anchors not found (mask switch %s, mask_master_key calls %d, keychain assignments %d, checksum assignments %d)" % (bool(gm and gm.ok), len(mm), len(ka), len(cs)))
+        else:
+            mb, mt = mm[0]
+            mok = cfg.call_guard(sk, mb).ok
+            # (a) with mask = true the keychain is stored only after mask_master_key Ok
+            par = cfg.reach(sk, starts=[d for (_s, d) in gm.ok], cut_edges=mok)
+            h = bool(mok) and not any(b in par for b, _st in ka) and cfg.must_pass(sk, gm.ok, {mb})[0]
+            run.instance(R6, {"fn": "set_keychain", "obligation": "mask requested => self.keychain is assigned only after mask_master_key Ok"}, held=h)
+            if not h:
+                run.finding(Finding(R6, sk.id, "with a mask requested the keychain can be stored without having been masked", site=sk.loc()))
+            # (b) the token handed back is the value the key was masked with
+            ml = vf.strip_clones(sk, mt["a"][1])
+            rets = []
+            for b in cfg.ok_value_blocks(sk):
+                for st in sk.bbs[b]["s"]:
+                    if st["k"] == "a" and st["d"] == [0, []] and st["r"]["k"] == "agg" and st["r"]["f"]:
+                        rets.append(st["r"]["f"][0][1])
+            key_calls = lambda pr: {x for x in pr if x[0] == "call" and x[1].endswith("SecretKey::new")}
+            applied = key_calls(vf.producers(sk, mt["a"][1]))
+            h = bool(rets) and bool(applied) and all(key_calls(vf.producers(sk, o)) == applied for o in rets)
+            run.instance(R6, {"fn": "set_keychain", "obligation": "the returned token is the mask value passed to mask_master_key"}, held=h)
+            if not h:
+                run.finding(Finding(R6, sk.id, "the token returned by set_keychain is not the mask that was applied", site=sk.loc()))
+            # (c) the checksum is computed before masking (of the true root key)
+            ce = {(b, x) for b, _st in cs for x in sk.succ(b)}
+            h = cfg.must_pass(sk, ce, {mb})[0]
+            run.instance(R6, {"fn": "set_keychain", "obligation": "master_checksum is taken before the key is masked"}, held=h)
+            if not h:
+                run.finding(Finding(R6, sk.id, "master_checksum is not computed from the unmasked keychain", site=sk.loc()))
     run.not_decided += ["'behaves exactly like an unmasked wallet' (equality of behaviours)", "which read-only queries reveal non-secret data without a token (listed under R4b, by design)"]
